@@ -1,10 +1,50 @@
 """C05 -- sensor update is the Kalman correction, for any number of readings."""
+import copy
+
 import numeric
+import scen
+from build import named
+
+
+def rescaled_twin(s, c_log2=22):
+    """the same behaviour with the first reading of every multi-reading sensor expressed in units 2^c_log2 times smaller: model,
+    reading, innovation and noise scale; the spec (InvRescale, checked exactly by TLC) says state and covariance do not change"""
+    t = copy.deepcopy({k: v for k, v in s.items() if not k.startswith("_")})
+    d = t["def"]
+    C = 2 ** c_log2
+    touched = False
+    for key, m in named(d["sensors"]).items():
+        rs = sorted(m)
+        if len(rs) < 2:
+            continue
+        r0 = rs[0]
+        touched = True
+        m[r0] = {"op": "mul", "l": {"op": "const", "val": [C, 1]}, "r": m[r0]}
+        n = d["snoise"][key][r0]
+        d["snoise"][key][r0] = [n[0] * C * C, n[1]]
+        for st in t["steps"]:
+            if st["act"] == "Update" and st["key"] == key:
+                st["z"][r0] = [st["z"][r0][0] * C, st["z"][r0][1]]
+                # the recorded innovation / innovation covariance live on the scaled axis (entries up to 2^44 next to exact
+                # zeros): they are not compared for the twin -- the claim (InvRescale) is about state and covariance
+                st.pop("innov", None)
+                st.pop("S", None)
+    if not touched:
+        return None
+    t["_id"] = s.get("_id", "") + "-rescaled"
+    return t
+
+
+def _post(ctx, scns, results):
+    twins = [t for t in (rescaled_twin(s) for s in scns) if t is not None]
+    r = scen.replay_all(ctx, twins, cse_settings=(False,), force_ekf=True)
+    c = scen.record_results(ctx, r, key_prefix="rescaled-reading:")
+    return {"rescaled_twins": len(twins), "rescaled": c}
 
 
 def run(ctx):
     return numeric.run_numeric(
-        ctx, sim=("MC_EKF", "MC_C05_sim.cfg"), sim_num_quick=96, sim_num_thorough=2400,
+        ctx, sim=("MC_EKF", "MC_C05_sim.cfg"), sim_num_quick=96, sim_num_thorough=2400, post=_post,
         rule="behaviour = definition + SetEstimate/Update sequence (innovation filtering disabled); state, covariance, recorded "
              "innovation and innovation covariance compared by name with TLC's exact Kalman correction; TLC also checks on every "
              "state: z = h(x) => x' = x, P' symmetric PSD, P - P' PSD, S symmetric PD",
